@@ -7,6 +7,7 @@ package props
 //            getters; model encode/decode on the same header (correspondence)
 //   hostile  header objects with ill-typed / ill-encoded members: goat Unmarshal vs model
 //   msg      real signed / encrypted messages with headers in every position and serialisation
+//   jwejson  JWE JSON syntax matrix: general/flattened, absent protected, aad, duplicated names (c11_jwejson.go)
 //   crit     every crit list over a small universe in every position (c11_msg.go)
 
 import (
@@ -33,6 +34,7 @@ type c11Case struct {
 	Hostile string   `json:"hostile,omitempty"`
 	Msg     *c11Msg  `json:"msg,omitempty"`
 	Crit    *c11Crit `json:"crit,omitempty"`
+	JJ      *c11JJ   `json:"jj,omitempty"`
 }
 
 func (cs c11Case) pkg() string {
@@ -344,6 +346,10 @@ func c11Exec(c *vf.Ctx, d *vf.Driver, p *c11Pool, cs c11Case) {
 		x.execMsg()
 		b, _ := json.Marshal(cs.Msg)
 		c.Case("msg/"+cs.pkg()+"/"+string(b), true)
+	case "jwejson":
+		x.execJJ()
+		b, _ := json.Marshal(cs.JJ)
+		c.Case("jwejson/"+string(b), true)
 	case "crit":
 		x.execCrit()
 		b, _ := json.Marshal(cs.Crit)
@@ -361,7 +367,7 @@ func runC11(c *vf.Ctx) {
 	if os.Getenv("VERIF_SEARCH") == "1" {
 		scale *= 4 // a proof obligation or tie broke: spend the search budget
 	}
-	crits := c11AllCritCases()
+	crits := append(c11AllCritCases(), c11AllJJCases()...)
 	c.Set("crit_cases", len(crits))
 	c.Parallel(0, true, func(w int, r *vf.Rand, d *vf.Driver) {
 		nw := 16
